@@ -5,6 +5,7 @@ import math
 
 from chartgen import chart_text, outcome
 from common import limbs, rng, td_us
+from common import exc_name  # noqa: E402
 
 
 def _digits(s):
@@ -45,7 +46,7 @@ def _observe_batch(items, recs, ctx, top=True):
     if kind == "raise":
         if len(items) == 1:
             it = items[0]
-            recs.append(dict(it["rec"], raised=type(val).__name__, msg=str(val)[:160]))
+            recs.append(dict(it["rec"], raised=exc_name(val), msg=str(val)[:160]))
             return True
         mid = len(items) // 2
         a = _observe_batch(items[:mid], recs, ctx, top=False)
@@ -53,7 +54,7 @@ def _observe_batch(items, recs, ctx, top=True):
         if not (a or b):
             if top or len(items) <= 4:
                 recs.append({"id": items[0]["rec"]["id"] + "+", "props": ["C08"], "kind": "SEC",
-                             "raised": type(val).__name__, "msg": str(val)[:160], "lines": lines, "td": []})
+                             "raised": exc_name(val), "msg": str(val)[:160], "lines": lines, "td": []})
                 return True
             return False
         return True
@@ -282,7 +283,7 @@ def replay(ctx, obj):
     if rec["kind"] == "SEC":
         kind, val = _parse_sync(rec["lines"])
         if kind == "raise":
-            _flush(ctx, [dict(rec, raised=type(val).__name__)])
+            _flush(ctx, [dict(rec, raised=exc_name(val))])
         return
     tick = "".join(map(str, rec["td"]))
     if rec["kind"] == "B":
